@@ -115,6 +115,7 @@ def check(cls, case, rec):
     yielded_total = 0
     last_value = None
     unload_force = {}
+    rf_scale = [0.0]
     kwargs = {"tol": 1e-9}
     if case["x0"]:
         kwargs["x0"] = fc
@@ -187,8 +188,10 @@ def check(cls, case, rec):
                     rf = float(np.asarray(res.fun)[mdof].sum())
                     key = round(vals[i], 12)
                     below = bool((W < wmax_model * (1 - 1e-9)).all())
+                    rf_scale[0] = max(rf_scale[0], abs(rf))
                     if below and key in unload_force and unload_force[key][1] == float(wmax_model.max()):
-                        rec.close("reload-retraces-unload", abs(rf - unload_force[key][0]) / max(abs(rf), 1e-9), 1e-6)
+                        # relative to the largest reaction force of the history (the force at a fully unloaded state is ~0)
+                        rec.close("reload-retraces-unload", abs(rf - unload_force[key][0]) / max(rf_scale[0], 1e-9), 1e-6)
                     if below:
                         unload_force[key] = (rf, float(wmax_model.max()))
                 if cls == "plastic":
